@@ -8,7 +8,7 @@ Recipe forms (lists, first element is the kind):
   ['named', name, *params]             structured graph (see NAMED)
   ['lit', nested-list]                 literal matrix
 Weight schemes (applied on a 0/1 support):
-  'bin' | 'real' (0,1] | 'int' small integers 1..3 (many exact ties) | 'dyad' k/8 | 'signed' | 'signedint'
+  'bin' | 'real' (0,1] | 'int' small integers 1..3 (many exact ties) | 'dyad' k/8 | 'neartie' | 'bigint' | 'signed' | 'signedint'
 """
 import itertools
 
@@ -329,6 +329,12 @@ def build(recipe):
         return disjoint(*[build(r) for r in recipe[1:]])
     if k == 'iso':
         return with_isolated(build(recipe[1]), recipe[2])
+    if k == 'hub':  # add recipe[2] nodes connected to every other node
+        A = build(recipe[1])
+        n = len(A) + recipe[2]
+        B = np.ones((n, n)) - np.eye(n)
+        B[:len(A), :len(A)] = A
+        return B
     if k == 'perm':  # relabel nodes by a seeded permutation
         A = build(recipe[1])
         p = np.random.RandomState(recipe[2]).permutation(len(A))
@@ -352,6 +358,10 @@ def weigh(A, scheme, seed, symmetric):
         Wt = rs.randint(1, 4, size=(n, n)).astype(float)
     elif scheme == 'dyad':
         Wt = rs.randint(1, 9, size=(n, n)) / 8.0
+    elif scheme == 'neartie':   # exactly representable lengths that differ by ~1e-6: near-ties that are not ties
+        Wt = rs.randint(1, 4, size=(n, n)) + rs.randint(0, 3, size=(n, n)) * 2.0 ** -20
+    elif scheme == 'bigint':    # large integers differing by 1 (relative difference 2e-6)
+        Wt = rs.randint(500000, 500003, size=(n, n)).astype(float)
     elif scheme == 'signed':
         Wt = rs.randn(n, n)
         Wt[Wt == 0] = 0.5
